@@ -289,6 +289,13 @@ func CheckC06(spec Spec, o *Obs, sim *Sim) error {
 			n = 0
 		}
 	}
+	// an actor that exceeds its budget inside Spawn is unregistered when Spawn returns (all synchronous)
+	for k, reg := range o.SpawnDeathReg {
+		if reg {
+			return fmt.Errorf("spawn-time death #%d: the actor exceeded MaxRestarts=%d inside its start-up, yet its id is still registered when Spawn returns "+
+				"(later sends do not dead-letter, the id cannot be spawned again)", k+1, spec.MaxRestarts)
+		}
+	}
 	// The remaining expectations come from the reference model; they are only meaningful when
 	// the actor followed the model everywhere else (a deviation in what was delivered is the
 	// business of C04/C05/C07, and makes the predicted deaths meaningless)
